@@ -151,6 +151,35 @@ Definition k_class (b : plan) (afters : list (nat * plan)) : nat :=
   else if k_edge_opts b afters then 4%nat
   else 0%nat.
 
+(** *** the decision per failing configuration
+    The oracle names the switch combinations [bad] whose rows differ from the reference run (no
+    rewrites).  A listed class excuses a combination only if it applies to *that* combination:
+      1: filter push-down is on and the plan is in [k_push];
+      2: join reordering is on and the step it performed — from the plan observed without it
+         (combination m-2) to the plan observed with it — is in [k_reorder];
+      4, 5: the input plan or the plan of that combination is in the executor classes.
+    The case is listed iff every differing combination is excused; the number returned is the
+    class of the first one. *)
+Fixpoint after_of (m : nat) (afters : list (nat * plan)) : option plan :=
+  match afters with
+  | [] => None
+  | (k, p) :: t => if Nat.eqb k m then Some p else after_of m t
+  end.
+
+Definition cfg_class (G : graph) (b : plan) (afters : list (nat * plan)) (m : nat) : nat :=
+  let a := match after_of m afters with Some a => a | None => b end in
+  if sw_fp m && k_push b then 1%nat
+  else if sw_jr m && (match after_of (m - 2) afters with Some i => k_reorder i a | None => false end) then 2%nat
+  else if edge_prop_untyped (edge_vars b) b || edge_prop_untyped (edge_vars b) a then 4%nat
+  else if dry_chain G false b || dry_chain G false a then 5%nat
+  else 0%nat.
+
+Definition k_class_cfg (G : graph) (b : plan) (afters : list (nat * plan)) (bad : list nat) : nat :=
+  match map (cfg_class G b afters) bad with
+  | [] => 0%nat
+  | c :: cs => if forallb (fun x => negb (Nat.eqb x 0)) (c :: cs) then c else 0%nat
+  end.
+
 Definition k_class_g (G : graph) (b : plan) (afters : list (nat * plan)) : nat :=
   match k_class b afters with
   | O => if k_chain_opts G b afters then 5%nat else 0%nat
